@@ -1090,31 +1090,38 @@ func (c *dtChannel) gsDataRequestRcvd(requestID graphsync.RequestID, hookActions
 
 func (c *dtChannel) pause(ctx context.Context) error {
 	c.lk.Lock()
-	defer c.lk.Unlock()
 
 	// Check if the channel was already cancelled
 	if c.requestID == nil {
+		c.lk.Unlock()
 		log.Debugf("%s: channel was cancelled so not pausing channel", c.channelID)
 		return nil
 	}
 
 	// If the requester cancelled, bail out
 	if c.requesterCancelled {
+		c.lk.Unlock()
 		log.Debugf("%s: requester has cancelled so not pausing response", c.channelID)
 		return nil
 	}
 
-	// Pause the response
+	requestID := *c.requestID
+	c.lk.Unlock()
+
+	// Pause the response. The channel lock is not held across the call into
+	// graphsync: graphsync answers from the goroutine that also runs our
+	// hooks, and a hook waiting for this channel's lock (a new request or a
+	// requester cancel for this channel) would deadlock with us.
 	log.Debugf("%s: pausing response", c.channelID)
-	return c.t.gs.Pause(ctx, *c.requestID)
+	return c.t.gs.Pause(ctx, requestID)
 }
 
 func (c *dtChannel) resume(ctx context.Context, msg datatransfer.Message) error {
 	c.lk.Lock()
-	defer c.lk.Unlock()
 
 	// Check if the channel was already cancelled
 	if c.requestID == nil {
+		c.lk.Unlock()
 		log.Debugf("%s: channel was cancelled so not resuming channel", c.channelID)
 		return nil
 	}
@@ -1124,6 +1131,7 @@ func (c *dtChannel) resume(ctx context.Context, msg datatransfer.Message) error 
 		var err error
 		extensions, err = extension.ToExtensionData(msg, c.t.supportedExtensions)
 		if err != nil {
+			c.lk.Unlock()
 			return err
 		}
 	}
@@ -1134,6 +1142,7 @@ func (c *dtChannel) resume(ctx context.Context, msg datatransfer.Message) error 
 		// remote peer. We're not sending any message now, so instead queue up
 		// the message to be sent next time the peer makes a request to us.
 		c.pendingExtensions = append(c.pendingExtensions, extensions...)
+		c.lk.Unlock()
 
 		log.Debugf("%s: requester has cancelled so not unpausing response", c.channelID)
 		return nil
@@ -1142,8 +1151,12 @@ func (c *dtChannel) resume(ctx context.Context, msg datatransfer.Message) error 
 	// Record that the transfer has started
 	c.xferStarted = true
 
+	requestID := *c.requestID
+	c.lk.Unlock()
+
+	// The channel lock is not held across the call into graphsync (see pause)
 	log.Debugf("%s: unpausing response", c.channelID)
-	return c.t.gs.Unpause(ctx, *c.requestID, extensions...)
+	return c.t.gs.Unpause(ctx, requestID, extensions...)
 }
 
 func (c *dtChannel) close(ctx context.Context) error {
